@@ -4,7 +4,7 @@ perturbed texts), L (print_int vs TokenPrinter.integer); oracle: strict AST roun
 minify(all transforms off) on enumerated (parent, slot, child) expressions, statement templates, adversarial constants
 and corpus files."""
 import ast, io, itertools, os, tokenize, collections, warnings, math
-from harness import common, astcmp
+from harness import common, fstr, astcmp
 
 TRUSTED = [
     'Coq 8.16.1 kernel; every C02 theorem closed under the global context',
@@ -297,6 +297,8 @@ def oracle(res, r, tier):
     nums = number_sources(r, tier)
     for k in range(0, len(nums), 25):
         n += strict_roundtrip(res, '\n'.join('v%d=%s' % (i, x) for i, x in enumerate(nums[k:k + 25])) + '\n', 'unparse' if (k // 25) % 2 else 'minify-all-off', 'numbers')
+    for k, src in enumerate(fstr.sources(r, 150 if tier == 'quick' else 3000)):
+        n += strict_roundtrip(res, src, 'unparse' if k % 2 else 'minify-all-off', 'fstring')
     for i, s in enumerate(STMTS):
         for e in SPECIAL:
             for src in (s.format('(%s)' % e if not e.startswith('(') else e, 'b'), s.format('b', '(%s)' % e if not e.startswith('(') else e)):
